@@ -34,6 +34,13 @@ SRC = {
     "scanrules2": [P + "plugins/rule_md_0%s.py" % n for n in ("11", "13", "14", "18", "20", "28", "32", "33", "34")]
                   + [P + "plugins/utils/*.py", P + "tokens/markdown_token.py", P + "plugin_manager/rule_plugin.py", P + "plugin_manager/plugin_scan_context.py",
                      P + "plugin_manager/plugin_manager.py", P + "general/constants.py"],
+    "tokenrules2": [P + "plugins/rule_md_0%s.py" % n for n in ("23", "29", "30", "37", "44", "46")]
+                   + [P + "plugins/utils/list_tracker.py", P + "plugins/utils/container_token_manager.py", P + "tokens/*.py", P + "extensions/pragma_token.py",
+                      P + "plugin_manager/plugin_scan_context.py", P + "plugin_manager/plugin_manager.py", P + "plugin_manager/rule_plugin.py",
+                      P + "file_scan_helper.py", P + "plugin_manager/fix_token_record.py", P + "plugin_manager/replace_tokens_record.py",
+                      P + "general/parser_helper.py"],
+    "listrules": [P + "plugins/rule_md_006.py", P + "plugins/rule_md_007.py", P + "plugins/utils/container_token_manager.py", P + "tokens/*.py",
+                  P + "plugin_manager/plugin_scan_context.py", P + "plugin_manager/plugin_manager.py", P + "plugin_manager/rule_plugin.py", P + "file_scan_helper.py"],
     "inlineloop": [P + "inline/inline_processor.py", P + "inline/inline_text_block_helper.py", P + "inline/inline_line_end_helper.py",
                    P + "inline/inline_handler_helper.py", P + "inline/inline_request.py", P + "inline/inline_response.py", P + "inline/inline_helper.py",
                    P + "inline/inline_backslash_helper.py", P + "inline/inline_backtick_helper.py", P + "inline/inline_character_reference_helper.py",
@@ -265,4 +272,51 @@ def scanrules2(ctx):
     cov["real_rule_crash_note"] = ("the model reproduces each of them as an explicit Err (agreement); whether a crash is a known finding is decided by C07's own oracle "
                                    "(call-site signature AND listed input), e.g. F-CRASH-MD018-next_token_paragraph_text_inline")
     _store(ctx, "scanrules2", cov, t0)
+    return cov
+
+
+def tokenrules2(ctx):
+    """Faithful models of five more token fixers over the extended token (MD023 MD030-fix MD037 MD044 MD046, replacement records, the
+    joint passes md029+md030 / md023+md030; Verif.Props.TokenRules2) vs the real rule classes."""
+    import tokenrules2lib
+    t0 = time.time()
+    cov = dict(tokenrules2lib.run(ctx, ctx.block_quick(SRC["tokenrules2"])))
+    dis, nwf, fail = cov.pop("disagreements"), cov.pop("not_wf"), cov.pop("failing_inputs")
+    for d in (dis + nwf)[:3]:
+        ctx.report({"tokenrules2_input": d.get("input"), "job": d.get("job")}, "tokenrules2-disagreement",
+                   {"detail": {k: str(v)[:400] for k, v in d.items()},
+                    "oracle": "real rule class (scan reports, fix requests, replacement records, tokens after the fix, exception kind) == "
+                              "Verif.Model.TokenRules (Basic2) on the abstraction of the same token stream"})
+    cov["disagreements"], cov["not_wf"] = len(dis), len(nwf)
+    cov["failing_inputs"] = len(fail)
+    seen, samples = set(), []
+    for d in fail:
+        k = (d.get("rule"), str(d.get("real", d.get("verdict", "")))[:60])
+        if k not in seen and len(samples) < 12:
+            seen.add(k)
+            samples.append({"rule": d.get("rule"), "doc": d.get("document"), "what": str(d.get("real", d.get("verdict", "")))[:120]})
+    cov["failing_input_samples"] = samples
+    cov["failing_note"] = ("real-code failures on parsed documents (the real rule raises, or its fix does not transfer to the document): root causes recorded as "
+                           "documented-only entries F-TR2-* in known_findings.json; decided at document level by the C07 / C08 / C09 oracles")
+    _store(ctx, "tokenrules2", cov, t0)
+    return cov
+
+
+def listrules(ctx):
+    """Faithful models of ContainerTokenManager, MD007 and MD006 (scan + fix) vs the real rule classes (Verif.Props.ListRules)."""
+    import listruleslib
+    t0 = time.time()
+    cov = dict(listruleslib.run(ctx, ctx.block_quick(SRC["listrules"])))
+    dis, fail = cov.pop("disagreements"), cov.pop("failing_inputs")
+    for d in dis[:3]:
+        ctx.report({"listrules_input": d.get("input"), "job": d.get("job")}, "listrules-disagreement",
+                   {"detail": {k: str(v)[:400] for k, v in d.items()},
+                    "oracle": "real MD006 / MD007 / ContainerTokenManager through a real PluginManager (reports, fix requests, tokens after the fix, exception kind, "
+                              "second file on the same objects) == Verif.Model.ListRules; the guard of md007_total_partial implies the real scan does not raise"})
+    cov["disagreements"] = len(dis)
+    cov["real_rule_crashes_on_parsed_documents"] = len(fail)
+    cov["real_rule_crash_samples"] = [{"doc": d.get("document"), "rule": d.get("rule"), "exception": d.get("exception")} for d in fail[:4]]
+    cov["real_rule_crash_note"] = ("each reproduced by the model as an explicit Err outside the guard of md007_total_partial (md007_total_excluded_known_crash); "
+                                   "known finding F-CRASH-MD007-calculate_base_column_block_quote, decided by C07's own oracle (call site AND listed input)")
+    _store(ctx, "listrules", cov, t0)
     return cov
